@@ -8,17 +8,24 @@ def optStr : Option String → String
   | some s => s
   | none => ""
 
-/-- the sort key of `impl Ord for TxnHeader`: (instant, code or "", description or "", uuid or "") -/
-def hdrKey (h : Header) : Int × String × String × String :=
-  (h.ts.ns, optStr h.code, optStr h.desc, optStr h.uuid)
+/-- `Ord for Option<String>`: `None` first, then by string -/
+def optLt : Option String → Option String → Bool
+  | none, none => false
+  | none, some _ => true
+  | some _, none => false
+  | some a, some b => decide (a < b)
 
-/-- `a ≤ b` in the header order -/
+/-- the sort key of `impl Ord for TxnHeader`: (instant, code, description, uuid text or "") -/
+def hdrKey (h : Header) : Int × Option String × Option String × String :=
+  (h.ts.ns, h.code, h.desc, optStr h.uuid)
+
+/-- `a ≤ b` in the header order (lexicographic on the key) -/
 def hdrLe (a b : Header) : Bool :=
   let ka := hdrKey a
   let kb := hdrKey b
   if ka.1 < kb.1 then true else if kb.1 < ka.1 then false
-  else if ka.2.1 < kb.2.1 then true else if kb.2.1 < ka.2.1 then false
-  else if ka.2.2.1 < kb.2.2.1 then true else if kb.2.2.1 < ka.2.2.1 then false
+  else if optLt ka.2.1 kb.2.1 then true else if optLt kb.2.1 ka.2.1 then false
+  else if optLt ka.2.2.1 kb.2.2.1 then true else if optLt kb.2.2.1 ka.2.2.1 then false
   else !(kb.2.2.2 < ka.2.2.2)
 
 def txnLe (a b : Txn) : Bool := hdrLe a.header b.header
